@@ -32,7 +32,8 @@ rc::Gen<Case> shapeCase(const std::string &prop, int shape, int thLo, int thHi, 
 // LONG_BUSY: 3-5 threads, each repeating its short op pattern `per` times inside one never-ending busy period (h[3] = per);
 // quick: 10-80 rounds; thorough: mostly 50-600, occasionally 22 000+ (more than 2^16 tickets in one busy period)
 rc::Gen<Case> longCase(const std::string &prop, Tier t) {
-    auto per = t == THOROUGH ? rc::gen::weightedOneOf<int>({{30, rng(50, 600)}, {1, rng(22000, 24000)}}) : rng(10, 80);
+    // the 22 000-round variant (> 2^16 tickets in one busy period, ~10 CPU-seconds per case) belongs to C02 only
+    auto per = t == THOROUGH ? (prop == "C02" ? rc::gen::weightedOneOf<int>({{60, rng(50, 600)}, {1, rng(22000, 24000)}}) : rng(50, 600)) : rng(10, 80);
     auto h = rc::gen::map(rc::gen::tuple(rng(3, 5), per), [](const std::tuple<int, int> &x) { return std::vector<int>{LONG_BUSY, std::get<0>(x), 0, std::get<1>(x)}; });
     return genCase(prop, h, ops(2, 2, 8), rc::gen::just(std::vector<uint8_t>{}));
 }
